@@ -116,6 +116,7 @@ func vFusRef(o *vFusObj, v, x map[uint32]float64) []map[uint32]float64 {
 // vFusionObjectsRun executes one step sequence; steps: 0 customise, 1 pristine?, 2 build,
 // 3+i combine(i).
 func vFusionObjectsRun(c *vCtx, cfgS string, inputs [][2]map[uint32]float64, seq []int) {
+	vResetGlobals()
 	var objs []*vFusObj
 	customised := false
 	names := func(upto int) []string {
